@@ -241,6 +241,24 @@ def check_recorded(ctx, cls, args, kw, fb, exc, new_act, new_ign, fmt, hist, tag
                      exc=repr(exc)[:120], in_triggered=len(mine_act), in_untriggered=len(mine_ign))
             return
         f = mine_ign[0]
+        if cls is not CondX and not isinstance(exc, TypeError):
+            # an exception is legitimate only when the condition or the rendering really cannot be evaluated: the
+            # reference renders the same template from the same fields
+            if _expected_trigger(cls, args, kw):
+                tpl = None if 'message' in kw else kw.get('message_template', cls.message_template)
+            else:
+                tpl = None if 'else_message' in kw else kw.get('else_message_template',
+                                                               getattr(cls, 'else_message_template', None))
+            try:
+                if tpl is not None:
+                    render(tpl, f.fields, fmt)
+                renders = True
+            except Exception:
+                renders = False
+            if renders:
+                ctx.fail({'symptom': 'construction raised although condition and message can be evaluated', **tag,
+                          'exception': type(exc).__name__}, history=hist, message=str(exc)[:120], template=tpl)
+                return
         if bool(f) or f._status != 'error':
             ctx.fail({'symptom': 'errored feedback is truthy or lacks error status', **tag}, history=hist,
                      status=f._status, truth=bool(f))
